@@ -45,6 +45,7 @@ fn strat_from(v: &Value, seed: u64) -> Strat {
     if let Some(sc) = v.get("script").and_then(|x| x.as_array()) {
         s.script = sc.iter().map(|x| x.as_u64().unwrap_or(0) as u32).collect();
     }
+    s.tick_phase = v.get("tick_phase").and_then(|x| x.as_u64()).unwrap_or(0) as u32;
     s.max_steps = v.get("max_steps").and_then(|x| x.as_u64()).unwrap_or(100_000);
     s
 }
@@ -93,6 +94,7 @@ fn kind_name(k: u32) -> &'static str {
         sched::H_PHASE => "phase",
         sched::H_TICK => "tick",
         sched::H_POINT => "point",
+        sched::H_BARRIER => "barrier",
         _ => "other",
     }
 }
@@ -116,8 +118,14 @@ fn owner(a: usize, out: &sched::Outcome) -> i64 {
             return i as i64;
         }
     }
-    for (addr, size, p, _f) in out.regions.iter().rev() {
-        if a >= *addr && a < addr + size {
+    // exact regions (harness-allocated futures) first, then regions learned from FIELD_WRITE events
+    for (addr, size, p, f) in out.regions.iter().rev() {
+        if *f != 99 && a >= *addr && a < addr + size {
+            return *p as i64;
+        }
+    }
+    for (addr, size, p, f) in out.regions.iter().rev() {
+        if *f == 99 && a >= *addr && a < addr + size {
             return *p as i64;
         }
     }
@@ -138,28 +146,20 @@ fn tnum(t: usize) -> i64 {
 }
 
 fn write_raw(w: &mut impl Write, x: usize, e: &Ev, em: &mut Emit, out: &sched::Outcome) {
-    let ad = em.aid(e.addr);
-    let own = owner(e.addr, out);
-    let mut s = format!(
-        "{{\"x\":{},\"t\":{},\"k\":\"{}\",\"ad\":{},\"own\":{},\"a\":{},\"b\":{},\"r\":{},\"r2\":{},\"now\":{}",
-        x,
-        tnum(e.t),
-        kind_name(e.kind),
-        ad,
-        own,
-        e.a,
-        e.b,
-        e.r,
-        e.r2,
-        e.now / sched::TICK
-    );
-    if e.kind == kv::PTR_COPY {
-        let src = em.aid(e.a as usize);
-        s.push_str(&format!(",\"src\":{},\"srcown\":{}", src, owner(e.a as usize, out)));
-    }
-    if let Some(x) = &e.extra {
-        s.push(',');
-        s.push_str(x);
+    let mut s = format!("{{\"x\":{},\"t\":{},\"k\":\"{}\",\"now\":{}", x, tnum(e.t), kind_name(e.kind), e.now / sched::TICK);
+    if matches!(e.kind, sched::H_BEGIN | sched::H_END) {
+        if let Some(x) = &e.extra {
+            s.push(',');
+            s.push_str(x);
+        }
+    } else {
+        let ad = em.aid(e.addr);
+        let own = owner(e.addr, out);
+        s.push_str(&format!(",\"ad\":{},\"own\":{},\"a\":{},\"b\":{},\"r\":{},\"r2\":{}", ad, own, e.a, e.b, e.r, e.r2));
+        if e.kind == kv::PTR_COPY {
+            let src = em.aid(e.a as usize);
+            s.push_str(&format!(",\"src\":{},\"srcown\":{}", src, owner(e.a as usize, out)));
+        }
     }
     if let Some(p) = &e.peek {
         s.push_str(",\"peek\":");
@@ -267,11 +267,15 @@ fn main() {
                     }
                     if let Some(r) = raw.as_mut() {
                         let mut em = Emit { ids: HashMap::new() };
-                        writeln!(r, "{{\"x\":{},\"k\":\"reset\",\"prog\":{}}}", x, pi).unwrap();
+                        let cnt = |c: char| -> usize {
+                            prog["procs"].as_array().map(|a| a.iter().map(|p| p["handles"].as_array().map(|h| h.iter().filter(|x| x.as_str().unwrap_or("").ends_with(c)).count()).unwrap_or(0)).sum()).unwrap_or(0)
+                        };
+                        let cap = match prog.get("cap").and_then(|c| c.as_u64()) { Some(c) => c, None => 1_000_000 };
+                        writeln!(r, "{{\"x\":{},\"t\":9,\"k\":\"reset\",\"now\":0,\"prog\":{},\"cap\":{},\"sc\":{},\"rc\":{}}}", x, pi, cap, cnt('s'), cnt('r')).unwrap();
                         for e in &out.log {
                             write_raw(r, x, e, &mut em, out);
                         }
-                        writeln!(r, "{{\"x\":{},\"k\":\"end\",\"stuck\":{},\"budget\":{},\"peek\":{}}}", x, out.stuck, out.over_budget, out.final_peek.as_ref().map(|p| peek_json(p, out)).unwrap_or("{}".to_string())).unwrap();
+                        writeln!(r, "{{\"x\":{},\"t\":9,\"now\":0,\"k\":\"end\",\"stuck\":{},\"budget\":{},\"peek\":{}}}", x, out.stuck, out.over_budget, out.final_peek.as_ref().map(|p| peek_json(p, out)).unwrap_or("{}".to_string())).unwrap();
                     }
                     if let Some(m) = meta.as_mut() {
                         let d: Vec<String> = out.decisions.iter().map(|d| d.to_string()).collect();
